@@ -13,8 +13,14 @@ from vf import common
 
 def main():
   prop = sys.argv[1].upper()
-  common.setup_env()
   mod = importlib.import_module('vf.' + prop.lower())
+  extra = getattr(mod, 'EXTRA_XLA_FLAGS', '')
+  if extra:
+    import os
+    os.environ['XLA_FLAGS'] = (
+        extra + ' --xla_cpu_multi_thread_eigen=false '
+        'intra_op_parallelism_threads=1')
+  common.setup_env()
   if getattr(mod, 'NEEDS_JAX', True):
     common.setup_jax(getattr(mod, 'X64', True))
   origin = None
